@@ -64,9 +64,6 @@ class Interp:
         c = z3.simplify(c)
         if z3.is_true(c): return True
         if z3.is_false(c): return False
-        if self.decisions:
-            d = self.decisions.pop(0); self.made.append(d)
-            self.s.add(c if d else z3.Not(c)); return d
         if self.s is None: raise Unspecified('symbolic branch without solver')
         self.s.push(); self.s.add(c); t = self.s.check(); self.s.pop()
         self.s.push(); self.s.add(z3.Not(c)); f = self.s.check(); self.s.pop()
@@ -75,6 +72,9 @@ class Interp:
         if t and not f: return True
         if f and not t: return False
         if not t and not f: raise Unspecified('infeasible')
+        if self.decisions:
+            d = self.decisions.pop(0); self.made.append(d)
+            self.s.add(c if d else z3.Not(c)); return d
         raise Split(c)
     def tick(self):
         self.steps += 1
@@ -508,6 +508,9 @@ class Interp:
                 if src[0] == 'null': raise Unspecified('type of null via moved function')
                 return sv(('str', tuple(tname(src).encode())))
             if src[0] != 'str': raise Unspecified('len of non-string via moved function')
+            if any(is_sym(b) for b in src[1]): raise Unspecified('len of a string with symbolic bytes')
+            try: bytes(src[1]).decode('utf-8')
+            except UnicodeDecodeError: raise Unspecified('->len() of a byte string that is not UTF-8 text (the statement speaks of Unicode text)')
             return sv(('int', len(src[1])))
         raise Unspecified('builtin ' + name)
 
